@@ -483,6 +483,9 @@ def analyse(ctx, exe, c, rec):
                 issues.append(("b", "zero-return-despite-error", f"{o['kind']} returned 0 although {nerr} ERROR events were recorded (first: {first!r})"))
             else:
                 issues.append(("b", "nonzero-return-without-error", f"{o['kind']} returned {ret} without any ERROR event (ierr={r['ierr']}, last warning {lastw!r})"))
+        if r.get("trunc", "0") == "1":
+            info["truncated_event_lists"] = info.get("truncated_event_lists", 0) + 1
+            continue                                  # more than 20000 ERROR/WARNING events: the strings are not compared
         # model prediction of the strings
         on = r["erron"] == "1" and r["errstron"] == "1"
         plain = evs
